@@ -58,7 +58,7 @@ pub fn gen_opt_text(t: &mut Tape) -> Option<String> {
 
 pub fn gen_apps(t: &mut Tape, p: &Profile) -> Vec<AppSpec> {
     let n = 1 + t.choose(p.max_apps.max(1));
-    (0..n)
+    let apps = (0..n)
         .map(|i| AppSpec {
             id: match t.choose(4) {
                 0 => format!("app{i}"),
@@ -79,7 +79,16 @@ pub fn gen_apps(t: &mut Tape, p: &Profile) -> Vec<AppSpec> {
             days: if p.cohorts { t.option(|t| t.u32_biased()) } else { None },
             extras: if t.chance(1, 4) { (0..1 + t.choose(7)).map(|k| (format!("x-extra-{k}"), t.ident(5))).collect() } else { vec![] },
         })
-        .collect()
+        .collect::<Vec<_>>();
+    // the packages of one product commonly share a version (their events then differ in nothing but the app they belong to)
+    let mut apps = apps;
+    if apps.len() > 1 && t.chance(1, 3) {
+        let v = apps[0].version.clone();
+        for a in apps.iter_mut().skip(1) {
+            a.version = v.clone();
+        }
+    }
+    apps
 }
 
 pub const RETRY_AFTER_EXOTIC: &[&[u8]] = &[
